@@ -97,26 +97,26 @@ NOT_YET = "not claimed"
 # what the rounds of independently seeded changes added (appended to the level text; details: DESIGN.md section 5,
 # "What the seeded rounds added", and section 8)
 ADDED = {
-    "C01": "Also: calls made by the Stream from inside callbacks, histories with hundreds of events in flight, record types from the whole range, and every slice handed to the Stream is kept and compared with its original elements at the end. Two records of one event with the same text. Histories in which one call delivers 63..300 (thorough: ..3000) events at once (an incomplete head event holds back complete ones), with gaps and late arrivals. One event of 2^k-1, 2^k, 2^k+1 records for k = 4..10 (thorough: also 12 and 16).",
-    "C02": "Also: Close in the middle of a history with calls after it; histories with hundreds of events in flight. Histories in which one call delivers 63..300 (thorough: ..3000) events at once (an incomplete head event holds back complete ones), with gaps and late arrivals. An event delivered again without a new record keeps the push position of its records (re-delivery after Close is an order violation).",
-    "C03": "Also: Close in the middle of a history with calls after it; histories with hundreds of events in flight; record types from the whole range. Histories in which one call delivers 63..300 (thorough: ..3000) events at once (an incomplete head event holds back complete ones), with gaps and late arrivals. One event of 2^k-1, 2^k, 2^k+1 records for k = 4..10 (thorough: also 12 and 16).",
-    "C10": "Also: histories that continue after Close, buffers of more than 64 / 256 events in random histories and a deterministic stage with buffers of 1025..8193 events. Histories in which one call delivers 63..300 (thorough: ..3000) events at once (an incomplete head event holds back complete ones), with gaps and late arrivals. One event of 2^k-1, 2^k, 2^k+1 records for k = 4..10 (thorough: also 12 and 16).",
-    "C11": "Also: half of the stress records go through Push(type, raw) with a check of the parsed header, a light-weight Close-versus-push stress, re-entrant completing pushes, and every stress round runs under a hang watchdog (a round that never returns is reported as a deadlock with a goroutine dump).",
-    "C19": "Also: further records for buffered events (a late record must not make its event younger), pushes after Close, and a deterministic stage with 129..3000 stale events flushed by one call. A Stream that calls Close from inside a callback while the interrupted call has more to deliver and younger events are buffered: every record delivered exactly once, Close's deliveries in order, later calls fail. A Stream that sleeps in its callback and then calls Maintain or pushes: events that have expired by then are delivered by that nested call. Histories with real sleeps of 0.7 s and 1.2 s (thorough: up to 11 s) under timeouts of three times the sleep, an hour and 'never', run side by side.",
+    "C01": "Also: calls made by the Stream from inside callbacks, histories with hundreds of events in flight, record types from the whole range, and every slice handed to the Stream is kept and compared with its original elements at the end. Two records of one event with the same text. Histories in which one call delivers 63..300 (thorough: ..3000) events at once (an incomplete head event holds back complete ones), with gaps and late arrivals. One event of 2^k-1, 2^k, 2^k+1 records for k = 4..10 (thorough: also 12 and 16). Five events around the 2^32 roll-over, first seen in every one of the 120 orders, completed late or right after the next one was first seen, with maxInFlight 5 and 2; records carry timestamps of their own (none, an hour ahead, an hour behind, the year 2200).",
+    "C02": "Also: Close in the middle of a history with calls after it; histories with hundreds of events in flight. Histories in which one call delivers 63..300 (thorough: ..3000) events at once (an incomplete head event holds back complete ones), with gaps and late arrivals. An event delivered again without a new record keeps the push position of its records (re-delivery after Close is an order violation). Five events around the 2^32 roll-over, first seen in every one of the 120 orders, completed late or right after the next one was first seen, with maxInFlight 5 and 2; records carry timestamps of their own (none, an hour ahead, an hour behind, the year 2200).",
+    "C03": "Also: Close in the middle of a history with calls after it; histories with hundreds of events in flight; record types from the whole range. Histories in which one call delivers 63..300 (thorough: ..3000) events at once (an incomplete head event holds back complete ones), with gaps and late arrivals. One event of 2^k-1, 2^k, 2^k+1 records for k = 4..10 (thorough: also 12 and 16). Five events around the 2^32 roll-over, first seen in every one of the 120 orders, completed late or right after the next one was first seen, with maxInFlight 5 and 2; records carry timestamps of their own (none, an hour ahead, an hour behind, the year 2200). A sequence number counted as lost is never one whose event is in the buffer at that moment.",
+    "C10": "Also: histories that continue after Close, buffers of more than 64 / 256 events in random histories and a deterministic stage with buffers of 1025..8193 events. Histories in which one call delivers 63..300 (thorough: ..3000) events at once (an incomplete head event holds back complete ones), with gaps and late arrivals. One event of 2^k-1, 2^k, 2^k+1 records for k = 4..10 (thorough: also 12 and 16). Records carry timestamps of their own.",
+    "C11": "Also: half of the stress records go through Push(type, raw) with a check of the parsed header, a light-weight Close-versus-push stress, re-entrant completing pushes, and every stress round runs under a hang watchdog (a round that never returns is reported as a deadlock with a goroutine dump). The Stream re-enters from EventsLost as well as from ReassemblyComplete.",
+    "C19": "Also: further records for buffered events (a late record must not make its event younger), pushes after Close, and a deterministic stage with 129..3000 stale events flushed by one call. A Stream that calls Close from inside a callback while the interrupted call has more to deliver and younger events are buffered: every record delivered exactly once, Close's deliveries in order, later calls fail. A Stream that sleeps in its callback and then calls Maintain or pushes: events that have expired by then are delivered by that nested call. Histories with real sleeps of 0.7 s and 1.2 s (thorough: up to 11 s) under timeouts of three times the sleep, an hour and 'never', run side by side. Records carry timestamps of their own (none, an hour ahead of the clock, an hour behind, the year 2200).",
     "C04": "Also: a line with a related header is parsed right before (same timestamp, sequence number that is a decimal prefix or extension), and an unrelated line between obtaining and checking a result; the missing-blank and missing-type damages. Fixed lines parsed after every input are compared with process start. The map ToMapStr returned is emptied and scribbled on before the next call.",
     "C05": "Also: lines glued from header pieces (rapid) and an exhaustive sweep of every concatenation of up to 4 (thorough: 5) header pieces through ParseLogLine and Parse. Results are snapshotted byte for byte, other records with hex values are decoded in between, and fixed records decoded after every input (also refused ones) are compared with how they decoded at process start. Every map handed out is emptied and scribbled on before the calls are repeated. A body sweep: for AVC (SELinux, AppArmor) and LOGIN records every combination of one spelling per slot (the kernel's 'null' access vector and the missing part included), and every concatenation of up to 3 (thorough: 4) words of the AVC, LOGIN, EXECVE, user-space msg and SOCKADDR grammars.",
     "C12": "Also: IPv6 addresses of 24..27 bytes, unnamed and abstract unix addresses, the old pam record form, values up to 8193 bytes, kernel threads, and related / unrelated records decoded before and after the record under test. IPv6 addresses of the special prefixes (link-local, unique-local, multicast, 6to4, NAT64). Fixed records decoded after every input are compared with process start. Negative syscall numbers (-1: cancelled by a tracer), INT_MIN/INT_MAX and x32 numbers. The old pam form (closing parenthesis on the result) for every user-space record type.",
     "C06": "Also: numbers no 32-bit field can hold, accounts by name, symbolic links as watch paths, values and keys up to the stated limits, empty keys, accepted rules with 60..64 fields incl. a tail of comparisons, related rules built first. FIFOs and unix sockets as watch paths. Fixed rules built after every generated rule (accepted or refused) are compared with process start; syscall names under architectures without a table. The bytes and rules returned for the fixed follow-up rules are scribbled on by the caller.",
-    "C07": "Also: every byte the domain admits in values and keys, watch-shaped syscall rules (and shapes one step away) over directories, files, links, dangling links, missing paths and base names of 255..4000 bytes, rules larger than 8970 bytes. Watch paths with glob, shell and flag characters and any other byte the domain admits.",
+    "C07": "Also: every byte the domain admits in values and keys, watch-shaped syscall rules (and shapes one step away) over directories, files, links, dangling links, missing paths and base names of 255..4000 bytes, rules larger than 8970 bytes. Watch paths with glob, shell and flag characters and any other byte the domain admits. Every record type 0..65535 as a msgtype filter and every exit code -4200..4200 through display and re-encoding.",
     "C13": "Also: a sweep of every field x list x every concatenation of up to 2 (thorough: 3) value pieces, the 60..70 field sweep in every mix of -F/-C/keys, access types 0..7. FIFOs, unix sockets and links to directories as watch paths (under the hang watchdog). After every refused rule a plain rule that needs the tables is built and compared with process start; a sweep of every architecture name in front of syscalls by name and by number. Every field code 0..255 with every value 0..130 (thorough: 0..300) in a valid one-field rule through ToCommandLine.",
-    "C14": "Also: clean single-family lines with tricky but valid values (more than half of the cases are accepted lines), Go's boolean flag syntax for -D, newlines inside arguments, lines that end inside an escape or a quote. Comma-separated lists are compared element for element (empty elements kept). Fixed lines parsed after every line (also refused ones) are compared with process start. Carriage return, form feed, vertical tab and Unicode spaces (no word separators for a shell) in front of, behind and inside values and as positional words.",
-    "C08": "Also: a real-transport stage (the library's own NetlinkClient against rtnetlink in a private network namespace: every command as the first one of a fresh client must report the kernel's EOPNOTSUPP although 0..3 unsolicited sequence-0 kernel messages are queued first); batches of NoWait setters drained by WaitForPendingACKs before an operation; up to 60 unsolicited records before a reply. A sweep of status replies whose fields equal version numbers and feature bits. GetRules/DeleteRules with 17..300 rules of 1040..8954 bytes. Up to 1025 unsolicited records before a reply. Failing receives reported bare, as *os.SyscallError or wrapped with %w, per history.",
+    "C14": "Also: clean single-family lines with tricky but valid values (more than half of the cases are accepted lines), Go's boolean flag syntax for -D, newlines inside arguments, lines that end inside an escape or a quote. Comma-separated lists are compared element for element (empty elements kept). Fixed lines parsed after every line (also refused ones) are compared with process start. Carriage return, form feed, vertical tab and Unicode spaces (no word separators for a shell) in front of, behind and inside values and as positional words. Keys and syscalls with prefixes that mean something to somebody (sys_, __NR_) and keys that look like values of other flags.",
+    "C08": "Also: a real-transport stage (the library's own NetlinkClient against rtnetlink in a private network namespace: every command as the first one of a fresh client must report the kernel's EOPNOTSUPP although 0..3 unsolicited sequence-0 kernel messages are queued first); batches of NoWait setters drained by WaitForPendingACKs before an operation; up to 60 unsolicited records before a reply. A sweep of status replies whose fields equal version numbers and feature bits. GetRules/DeleteRules with 17..300 rules of 1040..8954 bytes. Up to 1025 unsolicited records before a reply. Failing receives reported bare, as *os.SyscallError or wrapped with %w, per history. Every status GetStatus returned is kept and read again before each later operation.",
     "C16": "Also: repeated GetStatus with earlier results held, the status reply queued before the ACK, runs of 3..1025 setters without waiting, every setter after a GetStatus on the same client, and a sweep of every field over small and boundary values. 2..8 clients used concurrently (plain and -race), each over its own simulated kernel. Setters whose wait goes wrong (first receive fails with one of seven errnos, records before the acknowledgement, a refusal): exactly one request is sent. Requests the socket refuses (either wait mode). GetStatus on the clients NewAuditClient and NewMulticastAuditClient return, against the kernel's audit socket (read-only).",
     "C17": "Also: WaitForPendingACKs after Close, calls on the closed client followed by Close, closing the socket itself failing (EINTR, EIO, EBADF), answers of another type than NLMSG_ERROR, runs of 33..300 unacknowledged requests, 9..25 unsolicited records before an ACK. NoWait setters whose send the kernel refuses. Every setter carries NoWait and WaitForReply requests. Histories that start just below 2^32, so that a request is numbered 0; 64, 65 and 129 unsolicited records before an ACK. Synchronous requests whose reply cannot be read (ENOBUFS, EBADF, ENOTCONN, EIO).",
     "C18": "Also: a client whose read buffer the kernel's reply fills exactly, kernel multicast notifications caused by another socket (private network namespace; byte-identical to what a raw socket in the same group read), plausible headers with inconsistent length words for the audit message parser, a sequence field prefilled by the caller, and the client NewAuditClient returns reading replies up to the documented maximum from the kernel's audit socket (requests of an unknown type only). A uevent stage: datagrams of arbitrary (unaligned) length broadcast by the kernel on NETLINK_KOBJECT_UEVENT in a private network namespace must reach the parser byte-exact. A client that is member of a multicast group sends: the kernel answers, the other members of the group receive nothing. A sweep of nlmsg_flags values (zero and values without NLM_F_REQUEST among them) on the audit socket, which echoes a message of the unknown type 1098 whatever its flags are. The calls around the 2^32-th Send (the client's counter is set just below the wrap through reflection): returned numbers pairwise distinct, increasing modulo 2^32, and what the kernel echoes.",
-    "C09": "Also: undecodable and unknown-family socket addresses, up to 1025 EXECVE arguments and 13 PATH records, realistic small numbers (items = number of PATH records), keys named like the SYSCALL record's own in other records, repeated keys, syscalls from the whole normalisation table, related / unrelated groups coalesced before and after. An event whose object is a file kind and that has PATH records must have a file summary or a warning; a fixed group coalesced after every event is compared with process start. For SYSCALL events whose normalisation names a PATH record h > 0: the file summary is about a record at index >= h, and about record h unless its name type is PARENT or UNKNOWN. Records with 65..1025 distinct fields; values (process title, cwd, path names, arguments) padded to lengths around 128, 256, 1024 and 4096; unknown syscall numbers incl. -1.",
-    "C15": "Also: repeated keys, records that fail enrichment, every concurrent round under a hang watchdog. A cache-churn stage (thousands of new ids), same-syscall groups, and a table-isolation sweep per syscall with an object-path hint in a process that has coalesced nothing else (rich event, poorer events with 0..3 PATH records, the rich event again: equal results). Records with 65..1025 distinct fields and values padded to lengths around 128, 256, 1024 and 4096. A first-sight stage (plain and -race): eight goroutines coalesce record types, syscall numbers, architectures and ids that nothing in the process has seen before; compared with a sequential second pass.",
-    "C20": "Also: alias numbers from errno.h, both operand orders of every comparison, architecture names through Build, and for every entry of every record type a record carrying exactly that entry's has_fields must come out with that entry's action. The bytes MarshalText returns are overwritten by the caller and the value marshalled again; every exported table and every String/MarshalText result is snapshotted before and after a workload of parsing, coalescing and rule building. Every single-entry record type x one syscall per distinct categorisation as compound events (1590 pairs), all kept and compared after the sweep. exit=-N for N = 1..4200 through the parser: the name shown maps back to N. Every (architecture, number, name) of every syscall table as the parser shows it and as the rule encoder resolves it.",
+    "C09": "Also: undecodable and unknown-family socket addresses, up to 1025 EXECVE arguments and 13 PATH records, realistic small numbers (items = number of PATH records), keys named like the SYSCALL record's own in other records, repeated keys, syscalls from the whole normalisation table, related / unrelated groups coalesced before and after. An event whose object is a file kind and that has PATH records must have a file summary or a warning; a fixed group coalesced after every event is compared with process start. For SYSCALL events whose normalisation names a PATH record h > 0: the file summary is about a record at index >= h, and about record h unless its name type is PARENT or UNKNOWN. Records with 65..1025 distinct fields; values (process title, cwd, path names, arguments) padded to lengths around 128, 256, 1024 and 4096; unknown syscall numbers incl. -1. SELinux contexts with MLS ranges that have colons of their own.",
+    "C15": "Also: repeated keys, records that fail enrichment, every concurrent round under a hang watchdog. A cache-churn stage (thousands of new ids), same-syscall groups, and a table-isolation sweep per syscall with an object-path hint in a process that has coalesced nothing else (rich event, poorer events with 0..3 PATH records, the rich event again: equal results). Records with 65..1025 distinct fields and values padded to lengths around 128, 256, 1024 and 4096. A first-sight stage (plain and -race): eight goroutines coalesce record types, syscall numbers, architectures and ids that nothing in the process has seen before; compared with a sequential second pass. SELinux contexts with MLS ranges that have colons of their own (six and seven parts).",
+    "C20": "Also: alias numbers from errno.h, both operand orders of every comparison, architecture names through Build, and for every entry of every record type a record carrying exactly that entry's has_fields must come out with that entry's action. The bytes MarshalText returns are overwritten by the caller and the value marshalled again; every exported table and every String/MarshalText result is snapshotted before and after a workload of parsing, coalescing and rule building. Every single-entry record type x one syscall per distinct categorisation as compound events (1590 pairs), all kept and compared after the sweep. exit=-N for N = 1..4200 through the parser: the name shown maps back to N. Every (architecture, number, name) of every syscall table as the parser shows it and as the rule encoder resolves it. A first-use stage: eight fresh child processes in which 32 goroutines resolve every syscall name of every architecture at once.",
 }
 
 
